@@ -98,6 +98,11 @@ def make_zip(recipe):
         if recipe.get("comment"):
             zf.comment = recipe["comment"].encode("latin-1")
     data = bytearray(bio.getvalue())
+    if recipe.get("prefix"):
+        # data in front of the archive (a self-extracting stub, a launcher script of an executable jar): still a legal archive,
+        # readers find the members relative to the end-of-central-directory record
+        stub = b"#!/bin/sh\nexec java -jar \"$0\" \"$@\"\n"
+        return (stub + b"\0" * max(0, recipe["prefix"] - len(stub))) + make_zip({k: v for k, v in recipe.items() if k != "prefix"})
     enc = [i for i, m in enumerate(recipe.get("members", [])) if m.get("encrypted")]
     if enc:
         # a member marked as password-protected (general purpose flag bit 0, local and central header): it cannot be opened
